@@ -17,6 +17,7 @@ package validation
 import (
 	"crypto/tls"
 	"fmt"
+	"net/url"
 	"strings"
 
 	apimachineryvalidation "k8s.io/apimachinery/pkg/api/validation"
@@ -72,6 +73,12 @@ func ValidateServers(servers []proxyv1alpha1.UpstreamClusterServer, fldPath *fie
 			allErrs = append(allErrs, field.Invalid(fldPath.Child("servers").Index(i), s, "endpoint must supply http(s) schema"))
 		} else {
 			schemes.Insert(scheme)
+			// the endpoint is used as the host of a rest config, it must be a URL with a host
+			if u, err := url.Parse(servers[i].Endpoint); err != nil {
+				allErrs = append(allErrs, field.Invalid(fldPath.Child("servers").Index(i).Child("endpoint"), s.Endpoint, "endpoint must be a valid URL: "+err.Error()))
+			} else if len(u.Host) == 0 {
+				allErrs = append(allErrs, field.Invalid(fldPath.Child("servers").Index(i).Child("endpoint"), s.Endpoint, "endpoint must supply a host"))
+			}
 		}
 		upstreams.Insert(s.Endpoint)
 	}
@@ -103,6 +110,10 @@ func ValidateClientConfig(scheme string, clientconfig *proxyv1alpha1.ClientConfi
 	if scheme == "https" {
 		if !clientconfig.Insecure && len(clientconfig.CAData) == 0 {
 			allErrs = append(allErrs, field.Required(fldPath.Child("caData"), "clientConfig must supply caData when using secure mode"))
+		}
+		if clientconfig.Insecure && len(clientconfig.CAData) > 0 {
+			// the transport refuses a root CA together with the insecure flag
+			allErrs = append(allErrs, field.Invalid(fldPath.Child("caData"), "", "clientConfig must not supply caData when using insecure mode"))
 		}
 
 		var hasToken, hasKey, hasCert bool
@@ -296,7 +307,7 @@ func ValidateFlowControlConfiguration(schema *proxyv1alpha1.FlowControlSchemaCon
 	}
 	if schema.GlobalMaxRequestsInflight != nil {
 		if schema.GlobalMaxRequestsInflight.Max < 0 {
-			allErrs = append(allErrs, field.Invalid(fldPath.Child("globalMaxRequestsInflight").Child("max"), schema.MaxRequestsInflight.Max, "must be bigger than or equal to 0"))
+			allErrs = append(allErrs, field.Invalid(fldPath.Child("globalMaxRequestsInflight").Child("max"), schema.GlobalMaxRequestsInflight.Max, "must be bigger than or equal to 0"))
 		}
 		if schema.MaxRequestsInflight == nil {
 			allErrs = append(allErrs, field.Required(fldPath.Child("maxRequestsInflight"), "required if globalMaxRequestsInflight is specified"))
@@ -314,7 +325,7 @@ func ValidateFlowControlConfiguration(schema *proxyv1alpha1.FlowControlSchemaCon
 		}
 	}
 	if schema.GlobalTokenBucket != nil {
-		if schema.GlobalTokenBucket.QPS == 0 {
+		if schema.GlobalTokenBucket.QPS <= 0 {
 			allErrs = append(allErrs, field.Invalid(fldPath.Child("globalTokenBucket").Child("qps"), schema.GlobalTokenBucket.QPS, "must bigger than 0"))
 		}
 		if schema.TokenBucket == nil {
@@ -334,7 +345,7 @@ func ValidateFlowControlConfiguration(schema *proxyv1alpha1.FlowControlSchemaCon
 
 func validateTokenBucketFlowControlSchema(tokenBucket *proxyv1alpha1.TokenBucketFlowControlSchema, fldPath *field.Path) field.ErrorList {
 	allErrs := field.ErrorList{}
-	if tokenBucket.QPS == 0 {
+	if tokenBucket.QPS <= 0 {
 		allErrs = append(allErrs, field.Invalid(fldPath.Child("qps"), tokenBucket.QPS, "must bigger than 0"))
 	}
 
